@@ -53,11 +53,13 @@ class C10(C01):
                 positions = range(cnt) if cnt <= 3 else sorted({0, 1, cnt - 1, rng.randrange(cnt)})
                 for n in positions:
                     for exc in EXCS:
-                        whens = ("before", "after") if ek == "sendall" else ("before",)
+                        whens = ("before", "after", "partial", "partial") if ek == "sendall" else ("before",)
                         for when in whens:
                             v = copy.deepcopy(base)
-                            v["steps"][i]["faults"] = [{"at": [ek, n], "kind": "interrupt", "exc": exc,
-                                                        "when": when}]
+                            f = {"at": [ek, n], "kind": "interrupt", "exc": exc, "when": when}
+                            if when == "partial":      # part of the request left before the interruption
+                                f["sent"] = rng.choice([1, 2, 5, 9, 14, 20, 40])
+                            v["steps"][i]["faults"] = [f]
                             out.append(v)
         return out or [base]
 
@@ -87,7 +89,7 @@ class C10(C01):
         return out
 
     def probe_names(self):
-        return ("interrupt-in-recv", "interrupt-in-sendall-after", "interrupt-in-connect",
+        return ("interrupt-in-recv", "interrupt-in-sendall-after", "interrupt-after-partial-send", "interrupt-in-connect",
                 "interrupt-pooled", "calls-after-interrupt")
 
     def probes(self, scn, res):
@@ -109,6 +111,8 @@ class C10(C01):
             for f in st.get("faults", ()):
                 if f.get("when") == "after" and c.fired:
                     p["interrupt-in-sendall-after"] = 1
+                if f.get("when") == "partial" and c.fired:
+                    p["interrupt-after-partial-send"] = 1
         return p
 
 
